@@ -807,7 +807,9 @@ def judge(ctx: Ctx, tree: Dict[str, Any], r: Dict[str, Any]) -> None:
         return
     if o.startswith("crash") or o.startswith("hang") or o.startswith("SystemExit"):
         sig = o if not o.startswith("SystemExit") else "aborts:" + o
-        if tree["kind"] == "surrogate" and "UnicodeEncodeError" in o and "surrogates not allowed" in r.get("detail", ""):
+        if (tree["kind"] == "surrogate" and "UnicodeEncodeError" in o and "surrogates not allowed" in r.get("detail", "")
+                and not any(0xdc80 <= ord(c) <= 0xdcff for k in tree["files"] for c in k)):
+            # (a tree of this stream may also hold a file NAME that is not UTF-8: that is the other, known, defect)
             sig = "lone-surrogate:" + sig
         ctx.fail(sig, inp, f"driver.main: {o} {r.get('detail', '')} | {r.get('tail', '')[-200:]}")
         return
